@@ -75,6 +75,8 @@ def judge_grid(a, b, r0, r1, acc=None):
         bar = 8 * EPS * (abs(r0) + abs(r1)) * (1 + abs(float(t))) + 1e-300
         if acc is not None:
             acc.counters["grid_evaluations"] += 1
+            acc.evals += 1  # one evaluation = one (domain, range, query) triple
+            acc.trans += 1
             if x not in (a, b):
                 acc.nontriv += 1
         if abs(F(y) - exact) > bar:
@@ -306,8 +308,6 @@ def run_shard(shard):
                     continue
                 acc.states += 1
                 bad = judge_grid(a, b, r0, r1, acc)
-                acc.evals += 1
-                acc.trans += 1
                 if bad:
                     acc.violation({"a": a, "b": b, "r0": r0, "r1": r1}, bad[0], bad[1], order=(0, k))
         acc.sample({"a": a, "b": b, "r0": r0, "r1": r1})
